@@ -215,7 +215,8 @@ Definition submit (k : kind) : op := OSend (funnel_chan (funnel_of k)) (kind_cod
                                       | 2 the same props is spawned twice (two actors, one run service)
           ovLocal; ovGlobal; ovPost; ovTimer; ovSessMsg; ovRequest;
           edgeRounds;                 (see below)
-          siblings]                   that many MORE actors are spawned from the same props (they share
+          siblings; direct; teardown] (direct, teardown: see direct_mode below)
+   siblings:                          that many MORE actors are spawned from the same props (they share
                                       dispatcher and run service; see "many actors on one dispatcher");
                                       the counts do not depend on it
    edgeRounds:                        rounds of boundary work: timers that are already due (delay 0,
@@ -233,20 +234,33 @@ Definition submit (k : kind) : op := OSend (funnel_chan (funnel_of k)) (kind_cod
    GlobalEventCenter.Publish, which drops (the property allows that); local and global events
    share one queue, so only one of them overflows in a case (ovLocal wins). *)
 Definition cfgn (cfg : list Z) (i : nat) : Z := Z.max 0 (nth i cfg 0).
+(* cfg 23: the service's event centre is in DIRECT mode (SetLocalUseChan(false)): a local
+   Publish is then a synchronous call of the listeners by the publishing piece itself, not a
+   piece of work of its own, and only the service may publish locally - the measurement
+   produces no local events then; global events still have to arrive through the channel.
+   cfg 24: a TEARDOWN phase ends the case (1: the service stops its run service from inside a
+   handler and keeps working, 2: a foreign goroutine stops it): three more sessions are added
+   before; what is produced after the stop may be dropped and is not counted. *)
+Definition direct_mode (cfg : list Z) : bool := 0 <? cfgn cfg 23.
+Definition ov_local (cfg : list Z) : Z := if direct_mode cfg then 0 else cfgn cfg 15.
 Definition ov_global (cfg : list Z) : Z :=
-  if 0 <? cfgn cfg 15 then 0 else cfgn cfg 16.
+  if 0 <? ov_local cfg then 0 else cfgn cfg 16.
 Definition ov_sess (cfg : list Z) : Z := if 0 <? cfgn cfg 19 then 1 else 0.
+Definition td_sess (cfg : list Z) : Z := if 0 <? cfgn cfg 24 then 3 else 0.
 
 Definition base_counts (cfg : list Z) : list Z :=
   let n := cfgn cfg in
   let e := n 21%nat in
-  [n 0%nat * n 1%nat + e; n 0%nat * n 2%nat; n 3%nat; n 4%nat; n 5%nat * n 6%nat + 18 * e;
-   n 7%nat * n 8%nat + n 3%nat + n 4%nat + 5 * e;
-   n 9%nat * n 10%nat + 5 * e; n 9%nat * n 11%nat + e; n 12%nat; n 12%nat; n 12%nat * n 13%nat].
+  let d := direct_mode cfg in
+  [n 0%nat * n 1%nat + e; n 0%nat * n 2%nat; n 3%nat; n 4%nat;
+   n 5%nat * n 6%nat + (if d then 16 else 18) * e;
+   n 7%nat * n 8%nat + n 3%nat + n 4%nat + (if d then 4 else 5) * e;
+   (if d then 0 else n 9%nat * n 10%nat + 5 * e); n 9%nat * n 11%nat + e;
+   n 12%nat + td_sess cfg; n 12%nat; n 12%nat * n 13%nat].
 
 Definition ov_counts (cfg : list Z) : list Z :=
   let n := cfgn cfg in
-  [n 20%nat; 0; 0; 0; n 18%nat; n 17%nat; n 15%nat; ov_global cfg; ov_sess cfg; ov_sess cfg; n 19%nat].
+  [n 20%nat; 0; 0; 0; n 18%nat; n 17%nat; ov_local cfg; ov_global cfg; ov_sess cfg; ov_sess cfg; n 19%nat].
 
 Fixpoint zip_add (a b : list Z) : list Z :=
   match a, b with
@@ -509,24 +523,70 @@ Inductive mstat :=
 | MRunning.    (* the batch is the task the consumer is running *)
 
 Record mbox := mkBox { bq : list Z; bst : mstat }.
-Record dst := mkD { di : ist; boxes : list mbox; dlog : list (Z * Z) }.   (* dlog: handled (actor, message) *)
+Record dst := mkD {
+  di : ist;
+  boxes : list mbox;
+  dlog : list (Z * Z);        (* handled (actor, message) *)
+  dstopped : bool;            (* StandardRunService.Stop() has been called *)
+  dexit : bool                (* the loop has seen the close signal and ended: `for r.running` *)
+}.
 
 Definition disp_chan : Z := 1.   (* funnel_chan FDisp: scheDisp.chanTask, capacity 9 *)
+Definition sche_chan : Z := 2.   (* Sche.chanTask *)
+Definition close_chan : Z := 3.  (* RunService.chanClose, selector "__close__" *)
+Definition timer_chan : Z := 4.  (* timer.Mgr.queue *)
 
 Inductive dact :=
 | DPost (a m : Z)     (* any goroutine: PostUserMessage(m) on the mailbox of actor a *)
 | DSched (a : Z)      (* that goroutine's Schedule call completes - not enabled while chanTask is full *)
 | DCons (i : nat)     (* the consumer's next atomic step (case i at Select) *)
-| DOther (o : op).    (* any other producer action on the service's channels *)
+| DOther (o : op)     (* any other producer action on the service's channels *)
+| DStop.              (* any goroutine, also a handler of the service itself: StandardRunService.Stop():
+                         TimerMgr.Stop (expiring timers are dropped from now on), Sche.Stop (closes the
+                         task queue: Post is dropped), close(chanClose) *)
+
+Definition with_di (y : dst) (x : ist) : dst := mkD x (boxes y) (dlog y) (dstopped y) (dexit y).
+Definition with_boxes (y : dst) (bs : list mbox) : dst := mkD (di y) bs (dlog y) (dstopped y) (dexit y).
+
+(* the piece that just ended was the "__close__" handler: r.running = false, the loop ends *)
+Definition ends_loop (s : st) (p : pc) : bool :=
+  match p with
+  | PRun _ c _ true => Z.eqb c close_chan
+  | PDead k => match chan_of s k with Some c => Z.eqb c close_chan | None => false end
+  | _ => false
+  end.
+
+Definition dcons (y : dst) (i : nat) : dst :=
+  if dexit y then y else
+  let x1 := istep (di y) (ACons 0 i) in
+  match nth_error (pcs (di y)) 0, nth_error (pcs x1) 0 with
+  | Some (PSel _), Some (PRun _ c v true) =>
+      match (if Z.eqb c disp_chan then znth (boxes y) v else None) with
+      | Some b => with_boxes (with_di y x1) (zupd (boxes y) v (mkBox (bq b) MRunning))
+      | None => with_di y x1
+      end
+  | Some p0, Some PTop =>
+      let y1 :=
+        match p0 with
+        | PRun _ c v true =>
+            match (if Z.eqb c disp_chan then znth (boxes y) v else None) with
+            | Some b => mkD x1 (zupd (boxes y) v (mkBox [] MIdle)) (dlog y ++ map (pair v) (bq b))
+                            (dstopped y) (dexit y)
+            | None => with_di y x1
+            end
+        | _ => with_di y x1
+        end in
+      mkD (di y1) (boxes y1) (dlog y1) (dstopped y1) (ends_loop (sh (di y)) p0)
+  | _, _ => with_di y x1
+  end.
 
 Definition dstep (y : dst) (a : dact) : dst :=
   match a with
   | DPost a m =>
       match znth (boxes y) a with
       | Some b =>
-          mkD (di y)
-              (zupd (boxes y) a (mkBox (bq b ++ [m]) (match bst b with MIdle => MWant | st => st end)))
-              (dlog y)
+          with_boxes y (zupd (boxes y) a
+                          (mkBox (bq b ++ [m]) (match bst b with MIdle => MWant | st => st end)))
       | None => y
       end
   | DSched a =>
@@ -536,42 +596,36 @@ Definition dstep (y : dst) (a : dact) : dst :=
           | MWant =>
               match plain_step (sh (di y)) (OSend disp_chan a) with
               | (s1, ESent true) =>
-                  mkD (mkI s1 (pcs (di y))) (zupd (boxes y) a (mkBox (bq b) MQueued)) (dlog y)
+                  with_boxes (with_di y (mkI s1 (pcs (di y)))) (zupd (boxes y) a (mkBox (bq b) MQueued))
               | _ => y                     (* queue full: the caller stays blocked in Schedule *)
               end
           | _ => y
           end
       | None => y
       end
-  | DCons i =>
-      let x1 := istep (di y) (ACons 0 i) in
-      match nth_error (pcs (di y)) 0, nth_error (pcs x1) 0 with
-      | Some (PSel _), Some (PRun _ c v true) =>
-          match (if Z.eqb c disp_chan then znth (boxes y) v else None) with
-          | Some b => mkD x1 (zupd (boxes y) v (mkBox (bq b) MRunning)) (dlog y)
-          | None => mkD x1 (boxes y) (dlog y)
-          end
-      | Some (PRun _ c v true), Some PTop =>
-          match (if Z.eqb c disp_chan then znth (boxes y) v else None) with
-          | Some b => mkD x1 (zupd (boxes y) v (mkBox [] MIdle)) (dlog y ++ map (pair v) (bq b))
-          | None => mkD x1 (boxes y) (dlog y)
-          end
-      | _, _ => mkD x1 (boxes y) (dlog y)
-      end
+  | DCons i => dcons y i
   | DOther o =>
       match o with
-      | OSend c _ | OClose c =>
-          if Z.eqb c disp_chan then y     (* chanTask is private to the dispatcher *)
-          else mkD (istep (di y) (AProd o)) (boxes y) (dlog y)
-      | _ => mkD (istep (di y) (AProd o)) (boxes y) (dlog y)
+      | OSend c _ =>
+          if Z.eqb c disp_chan then y        (* chanTask is private to the dispatcher *)
+          else if dstopped y && Z.eqb c timer_chan then y   (* `if !m.running { return }` *)
+          else with_di y (istep (di y) (AProd o))
+      | OClose c =>
+          if Z.eqb c disp_chan then y else with_di y (istep (di y) (AProd o))
+      | _ => with_di y (istep (di y) (AProd o))
       end
+  | DStop =>
+      if dstopped y then y      (* a second Stop panics (close of closed channel): not modelled *)
+      else
+        mkD (irun (di y) [AProd (OClose sche_chan); AProd (OClose close_chan)])
+            (boxes y) (dlog y) true (dexit y)
   end.
 
 Definition drun (y : dst) (l : list dact) : dst := fold_left dstep l y.
 
 (* a service (service_ops) with n actors spawned from its props, all mailboxes idle *)
 Definition dinit (n : nat) : dst :=
-  mkD (mkI (fst (plain_from init service_ops)) [PTop]) (repeat (mkBox [] MIdle) n) [].
+  mkD (mkI (fst (plain_from init service_ops)) [PTop]) (repeat (mkBox [] MIdle) n) [] false false.
 
 Definition count_stat (st : mstat) (y : dst) : nat :=
   length (filter (fun b => match bst b, st with
